@@ -88,3 +88,11 @@ Theorem C13_type_lookup_order_partial : forall rn c sname rs rnm nn ts ts',
   pg_scan_types_r rn c sname rs rnm nn ts = pg_scan_types_r rn c sname rs rnm nn ts'.
 Proof. exact scan_types_order_independent. Qed.
 Print Assumptions C13_type_lookup_order_partial.
+
+(** ** the queries handed to the templates (Model/GoGen.v build_queries): sorted by method name,
+    hence independent of the order of the statements and of the query files *)
+From Verif Require Import Model.GoGen Proofs.QueryOrder.
+Theorem C13_queries_order_partial : forall l l' : list gq_out,
+  NoDup (map qo_method l) -> Permutation l l' -> fold_right ins_q [] l = fold_right ins_q [] l'.
+Proof. exact queries_order_independent. Qed.
+Print Assumptions C13_queries_order_partial.
